@@ -1,6 +1,7 @@
 import CobyqaVerif.Props.C07
 import CobyqaVerif.Props.C08
 import CobyqaVerif.Lemmas.RunTarget
+import CobyqaVerif.Lemmas.RunStop
 
 /-!
 # C07 (continued) — what a status certifies about the point that is RETURNED
@@ -138,5 +139,20 @@ theorem feasible_success_returned_point (cfg : Cfg) (hc : cfg.Valid) (htol : cfg
   obtain ⟨rfl, rfl⟩ := hk
   rw [e3, ← hkv]
   exact hrv
+
+/-- **Status 3 is issued only when the callback asked to stop — during the last evaluation of the run.**  In a
+complete run ending with status 3 the trace contains a `cbStop` event (the callback raising `StopIteration`) after
+the last `evalBegin`: no evaluation was started after the request (`stopSeen`). -/
+theorem callback_status_means_stop (cfg : Cfg) (hc : cfg.Valid) (tr : List Ev) (r : Res) (s' : St)
+    (h : runTrace merit cfg St.init (tr ++ [.result r]) = .ok s') (hst : r.status = 3) :
+    stopSeen tr = true := by
+  obtain ⟨s, hs1, hm⟩ := status_meaning merit cfg hc tr r s' h
+  have hS := runTrace_stopInv merit cfg [] tr St.init s stopInv_init hs1
+  simp only [List.nil_append] at hS
+  unfold StatusMeaning at hm
+  have hreq : s.lastReq = some .callback := by
+    rcases hm with ⟨e, _⟩ | ⟨e, _⟩ | ⟨e, _⟩ | ⟨_, q⟩ | ⟨e, _⟩ | ⟨e, _⟩ | ⟨e, _⟩ | ⟨e, _⟩ | e
+    all_goals (first | exact q | (rw [hst] at e; simp at e))
+  exact hS.req hreq
 
 end Cobyqa
